@@ -1747,6 +1747,8 @@ func (n *node) spawn(factory gen.ProcessFactory, options gen.ProcessOptionsExtra
 				n.sendExitMessage(p.pid, pid, messageExit)
 			}
 		}
+		// ... and those that linked themselves to this process (LinkParent)
+		n.RouteTerminatePID(p.pid, err)
 
 		// terminate meta process that spawned during initialization
 
